@@ -90,6 +90,65 @@ Print Assumptions C03_exactly_once.
 Print Assumptions C03_len.
 Print Assumptions C03_address.
 
+(* The public entry points build exactly that machine.  For a matrix whose axis shape is M x m (major M, minor m) with
+   M * m stored elements (coherent, C01), whose buffer pointer is non-null (Vec::as_mut_ptr) and, for sized elements, whose
+   allocation is Vec's: iter_rows_mut / iter_cols_mut - through IterVectorsMut::over_major_axis / over_minor_axis, the
+   unchecked NonNull / NonZero conversions and assemble, as translated from the source by rs2v - return without UB or panic
+   an iterator that starts in the invariant of the theorems above, in the layout that belongs to the storage order:
+   over the major axis M vectors of m elements (axis stride m, vector stride 1), over the minor axis m vectors of M elements
+   (axis stride 1, vector stride m); C03_layouts shows both satisfy the layout hypotheses. *)
+Section C03_entry.
+Variable c : cfg.
+Hypothesis Hwf : wf c.
+Variables es al base bytes : Z.
+Hypothesis Hes : 0 <= es.
+Hypothesis Hal : 0 < al.
+Variables M m : Z.
+Hypothesis HM : 0 < M.
+Hypothesis Hm : 0 < m.
+Hypothesis Hcnt : M * m <= umax c.
+Hypothesis Hbase : 0 < base.
+Hypothesis Halloc : 0 < es -> bytes = (M * m) * es /\ 0 < base /\ base + bytes <= umax c /\ bytes <= imax c.
+Notation world0 o0 := {| outer := o0; inners := []; yielded := [] |}.
+Notation gworld0 k := {| go := Some (0, k - 1); gis := []; ypos := [] |}.
+
+Theorem C03_entry_rows_mut : forall o : order,
+  exists o0, Matrix_iter_rows_mut c es al base bytes o (M * m) (mkAxisShape M m) = Val o0 /\
+    match o with
+    | RowMajor => WInv es base M m m 1 (world0 o0) (gworld0 M)        (* rows are the major-axis vectors *)
+    | ColMajor => WInv es base m M 1 m (world0 o0) (gworld0 m)        (* rows are the minor-axis vectors *)
+    end.
+Proof. intros [|]; [eapply entry_major_init|eapply entry_minor_init]; eassumption. Qed.
+
+Theorem C03_entry_cols_mut : forall o : order,
+  exists o0, Matrix_iter_cols_mut c es al base bytes o (M * m) (mkAxisShape M m) = Val o0 /\
+    match o with
+    | RowMajor => WInv es base m M 1 m (world0 o0) (gworld0 m)
+    | ColMajor => WInv es base M m m 1 (world0 o0) (gworld0 M)
+    end.
+Proof. intros [|]; [eapply entry_minor_init|eapply entry_major_init]; eassumption. Qed.
+End C03_entry.
+Print Assumptions C03_entry_rows_mut.
+Print Assumptions C03_entry_cols_mut.
+
+(* a matrix without elements gets the detached empty iterator: every call returns None, len() is 0, nothing is handed out
+   (that this differs from the immutable views when one extent is non-zero is finding F2, see Props/C06.v) *)
+Theorem C03_entry_elementless : forall c es al base bytes o sh,
+  Matrix_iter_rows_mut c es al base bytes o 0 sh = Val (Vecs_empty al) /\
+  Matrix_iter_cols_mut c es al base bytes o 0 sh = Val (Vecs_empty al) /\
+  Vecs_next c es base bytes (Vecs_empty al) = Val (Vecs_empty al, None) /\
+  Vecs_next_back c es base bytes (Vecs_empty al) = Val (Vecs_empty al, None) /\
+  Vecs_len c es (Vecs_empty al) = Val 0.
+Proof.
+  intros c es al base bytes o sh. destruct (entry_elementless c es al base bytes sh) as (H1 & H2 & H3 & H4 & H5).
+  destruct o; repeat split; assumption.
+Qed.
+Print Assumptions C03_entry_elementless.
+Example C03_entry_nonvacuous : (* a 3 x 2 buffer of 8-byte elements at address 4096 on a 64-bit target *)
+  let c := {| umax := 2^64 - 1; imax := 2^63 - 1; debug := true |} in
+  exists o0, Matrix_iter_rows_mut c 8 8 4096 48 RowMajor 6 (mkAxisShape 3 2) = Val o0.
+Proof. eexists. vm_compute. reflexivity. Qed.
+
 (* finding F4 (repaired in /repo by a `fix:` commit): with the counters of zero-sized elements starting at the aligned
    dangling address, the constructor itself overflowed for nearly usize::MAX elements of alignment >= 2.  None of the
    theorems above depends on the pointer width; the 8-bit instance shows it: 255 zero-sized elements of alignment 2. *)
